@@ -20,8 +20,16 @@
      2. unique_nonce p            — proved (C15_unique_nonce);
         all_is_union p            — proved (C15_all_is_union) since the /repo fix of removeTx;
      3. replacement_needs_bump    — proved (C15_replacement_needs_bump, C15_list_replacement_needs_bump);
-     4. limits_hold p             — not proved; FALSE at all times for the queue limits of the code as it is
-                                     (signature removetx-requeue-exceeds-queue-limits); checked by the direct oracle;
+     4. limits_hold p             — REFUTED as an at-all-times invariant (C15_limits_hold_refuted: removeTx re-queues
+                                     without a cap and SetGasPrice / a replacing add are not followed by
+                                     promoteExecutables; signature removetx-requeue-exceeds-queue-limits).  What
+                                     promoteExecutables re-establishes is proved for the per-account queue cap
+                                     (C15_account_queue_cap_partial: after its per-account phase and its GlobalSlots
+                                     phase every processed non-local account has <= AccountQueue queued).  NOT proved:
+                                     that the GlobalQueue truncation that follows keeps it (removeTx there only shrinks
+                                     queues, which needs all = pending ∪ queue), the GlobalSlots bound with the
+                                     AccountSlots floor, the GlobalQueue bound, the priced heap containing every pooled
+                                     transaction, and the lifting to "after every add / reset" over all histories;
      5. reorg_reinjects           — the reinjection set is proved exact (C15_reorg_reinject_set, C15_reorg_nothing_invented:
                                      dropped branch minus new branch down to a common ancestor; [] for a plain advance,
                                      for a number difference > 64 and for unknown blocks); every candidate that is valid
@@ -34,7 +42,7 @@
                                      AccountQueue cap, the GlobalSlots loops or the GlobalQueue truncation; and the
                                      converse "nothing but reinjected transactions enters the pool during reset". *)
 From Coq Require Import List ZArith.
-From AQ Require Import Pool.PoolModel Pool.PoolSpec Pool.PoolProofs Pool.PoolReorg.
+From AQ Require Import Pool.PoolModel Pool.PoolSpec Pool.PoolProofs Pool.PoolReorg Pool.PoolLimits.
 Import ListNotations.
 Local Open Scope Z_scope.
 
@@ -137,6 +145,25 @@ Example C15_pending_limit_example :
             map (fun kv => (fst kv, map tnonce (items (snd kv)))) (pending p) = [(0, [0; 1]); (1, [0; 1])] /\
             pn_get p 0 = 2 /\ pn_okb p [0; 1] = true.
 Proof. exact slots_history_runs. Qed.
+
+(* 4. limits_hold.  (a) REFUTED as an invariant after every public operation: AccountQueue = 2, a non-local sender has
+      nonces 0..3 pending, SetGasPrice above the price of nonce 0 — three transactions are queued afterwards. *)
+Theorem C15_limits_hold_refuted :
+  exists p, run (new_pool cfg_tiny 1 [(0, (0, 100000000))] 1000000) requeue_history = Ok p /\ ~ limits_hold p.
+Proof. exact limits_hold_refuted'. Qed.
+Print Assumptions C15_limits_hold_refuted.
+
+(* (b) PARTIAL: what promoteExecutables re-establishes, per-account queue cap.  Full statement wanted: after every add that
+      is followed by promoteExecutables and after every reset, for every history: AccountQueue for processed non-local
+      accounts, GlobalSlots up to the AccountSlots floor, GlobalQueue unless only locals remain.  Proved: after the
+      per-account phase (fold of pe_account over the processed accounts) and the GlobalSlots phase (pe_pending_limit), any
+      oracle: every processed account that is not local has at most AccountQueue queued transactions. *)
+Theorem C15_account_queue_cap_partial : forall (o : oracle) (accs : list Z) (p p1 p2 : pool) (a : Z),
+  0 <= c_aqueue (conf p) -> fold_res (pe_account o) accs p = Ok p1 -> pe_pending_limit o p1 = Ok p2 ->
+  In a accs -> memZ a (locals p) = false ->
+  forall l, assoc a (queue p2) = Some l -> tl_len l <= c_aqueue (conf p2).
+Proof. exact account_queue_cap_after_promote. Qed.
+Print Assumptions C15_account_queue_cap_partial.
 
 (* 5. reorg_reinjects.  (a) What reset(old, new) reinjects: [] if new is a child of old, if the block numbers differ
       by more than 64, or if a head is unknown to the chain; otherwise exactly the transactions of the dropped branch
